@@ -20,7 +20,7 @@ RULE = ("npy input (files written by write_npy, 1-3 axes): first-chunk length en
         "(Builder::verif_build_from_reader) with first-chunk length exhaustive (small files) and later chunks random down "
         "to 1 byte: decoded sites must equal the whole-buffer run; failures injected at sampled offsets must not yield a "
         "successful run; the real binary fed through a pipe with a delayed, split first write. non-trivial = schedule with a "
-        "first chunk shorter than the format's magic/header")
+        "first chunk shorter than the format's magic/header; injected failures of every io::ErrorKind (UnexpectedEof included), also beyond the 64 KiB detection prefix; BGZF streams cut inside a block through the binary")
 
 
 def fmt(l):
@@ -69,6 +69,9 @@ def check(rep, tier, seed):
             cases.append("cnpy %s %s -" % (hx, fmt(sc)))
         for f in range(L):
             cases.append("cnpy %s %s %d" % (hx, fmt(rng.choice([[], [1] * L, [rng.randrange(1, 9) for _ in range(L)]])), f))
+            if f % 3 == 0:
+                # whatever KIND of error the source fails with (an unexpected end of file is not an end of file)
+                cases.append("cnpy %s %s %d:%s" % (hx, fmt(rng.choice([[], [1] * L])), f, rng.choice(["eof", "pipe", "timeout", "invalid", "reset", "wouldblock"])))
     mo, outs = compare_cases(rep, "npy-chunked-read", cases, nontrivial=lambda c, m: c.split()[2] != "-",
                              classify=lambda c, m, i: "chunking:npy-read", spec=True, both_builds=(tier == "thorough"))
     for c, o in zip(dict.fromkeys(cases), outs[False]):
@@ -182,6 +185,21 @@ def check(rep, tier, seed):
         for f in sorted(set([0, 1, 2, 3, 10, 27, 28, 29, L - 1, L - 28, L - 29] + [rng.randrange(0, L) for _ in range(25)])):
             if 0 <= f < L:
                 gcases.append("cgeno %s %s %d 1" % (path, fmt(rng.choice([[], [7] * 50])), f)); gmeta.append((name, "fault", f))
+                gcases.append("cgeno %s %s %d:%s 1" % (path, fmt(rng.choice([[], [7] * 50])), f, rng.choice(["eof", "pipe", "timeout", "invalid", "reset"]))); gmeta.append((name, "fault", f))
+    # ... and beyond the 64 KiB the format detection reads ahead, where the record readers are the ones that meet the
+    # failure: every kind of error, an "unexpected end of file" included, must surface
+    from callsets import bgzf_block, BGZF_EOF
+    stored = b"".join(bgzf_block(bigvcf[i:i + 3000], level=0) for i in range(0, len(bigvcf), 3000)) + BGZF_EOF     # longer than the prefix
+    files["big-vcf.gz-stored"] = stored
+    open(os.path.join(d, "in.big-vcf.gz-stored"), "wb").write(stored)
+    for name, data in list(bigfiles.items()) + [("big-vcf.gz-stored", stored)]:
+        path = os.path.join(d, "in." + name)
+        L = len(data)
+        if L < 70000:
+            continue
+        for f in [65536, 65537, 66000, L - 1, L - 30] + [rng.randrange(65600, L) for _ in range(10 if tier == "quick" else 60)]:
+            for kind in (["eof", rng.choice(["pipe", "timeout", "invalid", "reset"])] if tier == "quick" else ["eof", "pipe", "timeout", "invalid", "reset", ""]):
+                gcases.append("cgeno %s %s %d%s 1" % (path, fmt(rng.choice([[], [4099] * 200])), f, ":" + kind if kind else "")); gmeta.append((name, "fault", f))
     go = run_impl(gcases)
     ref = {}
     for c, (name, kind, x), o in zip(gcases, gmeta, go):
@@ -195,7 +213,7 @@ def check(rep, tier, seed):
                          stdin_hex=files[name].hex()[:6000], observed=o[:300], expected=ref[name][:300], harness_case=c,
                          detail="reading the call set through a chunk schedule (first chunk %s) differs from reading it in one piece" % x)
         else:
-            tail_ok = name.startswith("vcf.gz") or name == "bcf"     # the trailing empty BGZF block carries no data
+            tail_ok = name.startswith("vcf.gz") or name in ("bcf", "big-vcf.gz", "big-vcf.gz-stored")     # the trailing empty BGZF block carries no data
             if o.endswith(" D") and not (tail_ok and x >= len(files[name]) - 28):
                 rep.fail(kind="property-oracle", cls="chunking:callset:fault-ignored", case="%s read failure at offset %d" % (name, x), harness_case=c,
                          stdin_hex=files[name].hex()[:6000], observed=o[:300], expected="an error", detail="a read failure before the end of the stream did not surface")
@@ -217,6 +235,52 @@ def check(rep, tier, seed):
                 rep.fail(kind="property-oracle", cls="chunking:callset:%s:first-chunk" % name.split("-")[0], case="pipe: %s with a first write of %d bytes" % (name, first),
                          argv=["sfs", "create"], stdin_hex=data.hex()[:6000], observed={"rc": rc, "stdout": so.decode(errors="replace")[:200], "stderr": se.decode(errors="replace")[-200:]},
                          expected=whole.stdout.decode(errors="replace")[:200], detail="the binary's result depends on how the pipe delivers the first bytes")
+    # ------------------------------------------------------------------ a compressed stream that ends inside a block
+    # (the decompressor meets an unexpected end of file in the middle of the records): an error, not the spectrum of the
+    # records that happened to arrive; by path and on stdin, with one and several threads
+    tvcf = bigfiles["big-vcf"]
+    tgz = bgzf_compress(tvcf, sizes=[2500])
+    offs, pos = [], 0
+    while pos < len(tgz):
+        bs = int.from_bytes(tgz[pos + 16:pos + 18], "little") + 1
+        offs.append((pos, bs)); pos += bs
+    tjobs = []
+    from common import run_cli_many
+    for k in sorted(set([len(offs) // 2, len(offs) - 3] + [rng.randrange(8, len(offs) - 2) for _ in range(3 if tier == "quick" else 20)])):
+        bpos, bs = offs[k]
+        for inside in (18, 19, bs // 2, bs - 9, bs - 1):
+            cut = tgz[:bpos + inside]
+            tjobs.append((["create"] + rng.choice([[], ["-t", "1"], ["-t", "4"]]), cut, "block %d of %d, %d of %d bytes" % (k, len(offs), inside, bs)))
+    tb = bcf_encode_hts(tvcf)
+    if tb:
+        tbgz = bgzf_compress(tb, sizes=[2500])
+        boffs, pos = [], 0
+        while pos < len(tbgz):
+            bs = int.from_bytes(tbgz[pos + 16:pos + 18], "little") + 1
+            boffs.append((pos, bs)); pos += bs
+        for k in [len(boffs) // 2, len(boffs) - 3, rng.randrange(8, len(boffs) - 2)]:
+            bpos, bs = boffs[k]
+            for inside in (18, bs // 2, bs - 1):
+                tjobs.append((["create"], tbgz[:bpos + inside], "bcf block %d of %d, %d of %d bytes" % (k, len(boffs), inside, bs)))
+        # the layout htslib gives a BCF: every block starts with a record (records do not straddle blocks), so that the end of
+        # a block is where a reader expects either the next record or the end of the file
+        import struct as _st
+        hp = 9 + _st.unpack("<I", tb[5:9])[0]
+        rb, pos = [], hp
+        while pos < len(tb):
+            ls, li = _st.unpack("<II", tb[pos:pos + 8])
+            rb.append((pos, 8 + ls + li)); pos += 8 + ls + li
+        ablocks = [bgzf_block(tb[:hp])] + [bgzf_block(tb[rb[i][0]:rb[min(i + 25, len(rb)) - 1][0] + rb[min(i + 25, len(rb)) - 1][1]]) for i in range(0, len(rb), 25)]
+        for k in [len(ablocks) // 2, len(ablocks) - 2, rng.randrange(6, len(ablocks) - 1)]:
+            for inside in (18, 40, len(ablocks[k]) - 1):
+                tjobs.append((["create"] + rng.choice([[], ["-t", "1"]]), b"".join(ablocks[:k]) + ablocks[k][:inside],
+                              "bcf, records aligned to blocks, block %d of %d, %d of %d bytes" % (k, len(ablocks), inside, len(ablocks[k]))))
+    for (argv, data, what), (rc, so, se) in zip(tjobs, run_cli_many([(a, b) for a, b, _ in tjobs])):
+        rep.count("truncated-bgzf", what, True)
+        if rc == 0 or so != b"":
+            rep.fail(kind="property-oracle", cls="chunking:truncated-bgzf", case="BGZF stream cut inside " + what, argv=["sfs"] + argv, stdin_hex=data.hex()[:400000],
+                     observed={"rc": rc, "stdout": so.decode(errors="replace")[:200], "stderr": se.decode(errors="replace")[-200:]}, expected="non-zero exit, empty stdout",
+                     detail="the compressed stream ends in the middle of a block (an unexpected end of file while records are being read), yet the run reports success with partial data")
     for f in os.listdir(d):
         os.remove(os.path.join(d, f))
     rep.assumptions += ["partial: thread scheduling inside noodles-bgzf, inflate and the record parsers are exercised through the chunked stream, not modelled",
